@@ -210,6 +210,17 @@ def slice_impl(src, masked, name, trait=None):
     return start, b, be + 1
 
 
+def slice_trait(src, masked, name):
+    rx = re.compile(r"^[ \t]*(pub(\([a-z]+\))?\s+)?trait\s+%s\b[^{]*\{" % re.escape(name), re.M)
+    m = rx.search(masked)
+    if not m:
+        raise AnchorLost("trait %s not found" % name)
+    b = m.end() - 1
+    be = match_close(masked, b)
+    start = attr_start(src, masked, m.start())
+    return start, b, be + 1
+
+
 def slice_newtype_enum(src, masked, name):
     rx = re.compile(r"^newtype_enum!\s*\{\s*impl\s+(debug\s+|display\s+)?%s\s*\{" % re.escape(name), re.M)
     m = rx.search(masked)
@@ -423,7 +434,7 @@ def contract_fn(text, opts, log, what):
     head, body = name_return(text, opts.get("returns", "r"), log)
     body = apply_splices(body, opts.get("splices"), log, what)
     contract = opts.get("contract", "").strip("\n")
-    if CANARY and contract and not opts.get("external_body"):
+    if CANARY and (contract or opts.get("inherits_contract")) and not opts.get("external_body"):
         # vacuity canary: with a contradictory precondition / vacuous assumption this would verify
         body = "{ proof { assert(false); }" + body[1:]
     if opts.get("external_body"):
@@ -531,7 +542,7 @@ def extract(unit, repo, verus_dir):
                 log.append("R8' trait impl turned into an inherent impl (method bodies verbatim)")
             inner_src = src[b + 1:end - 1]
             inner_masked = masked[b + 1:end - 1]
-            pieces = []
+            pieces = [("\n" + it["impl_extra"] + "\n") if it.get("impl_extra") else ""]     # ghost `spec fn` implementations of a trait impl
             pos = 0
             meths = it.get("methods", {})
             found = set()
@@ -542,11 +553,13 @@ def extract(unit, repo, verus_dir):
                     continue
                 pieces.append(rule_R0(inner_src[pos:s0], log))
                 mopts = meths.get(mname, {})
+                if it.get("inherits_contract"):      # a real trait impl: each method is checked against the TRAIT's ensures
+                    mopts = dict(mopts, inherits_contract=True)
                 if mopts.get("skip"):
                     log.append("skip method %s" % mname)
                 else:
                     pieces.append(contract_fn(inner_src[s0:e0], mopts, log, "%s::%s" % (name, mname)))
-                    functions.append(("%s::%s" % (name, mname), it["file"], bool(mopts.get("contract")), bool(mopts.get("external_body"))))
+                    functions.append(("%s::%s" % (name, mname), it["file"], bool(mopts.get("contract") or mopts.get("inherits_contract")), bool(mopts.get("external_body"))))
                 found.add(mname)
                 pos = e0
             pieces.append(rule_R0(inner_src[pos:], log))
@@ -556,6 +569,49 @@ def extract(unit, repo, verus_dir):
             new = head + "".join(pieces) + "}"
             if it.get("pre_impl"):
                 new = it["pre_impl"] + "\n" + new
+        elif kind == "trait":
+            # a trait definition kept as a trait: ghost `spec fn`s added (it["extra"]), required methods get a named return value
+            # and an `ensures` (R6), default methods additionally keep their bodies verbatim and are VERIFIED against that ensures
+            start, b, end = slice_trait(src, masked, name)
+            orig = src[start:end]
+            head = rule_R0(src[start:b + 1], log)
+            inner_src = src[b + 1:end - 1]
+            inner_masked = masked[b + 1:end - 1]
+            pieces = [("\n" + it["extra"] + "\n") if it.get("extra") else ""]
+            pos = 0
+            meths = it.get("methods", {})
+            found = set()
+            for fm in re.finditer(r"^[ \t]*fn\s+(\w+)", inner_masked, re.M):
+                mname = fm.group(1)
+                p0 = inner_masked.index("(", fm.end())
+                pe0 = match_close(inner_masked, p0)
+                semi = inner_masked.find(";", pe0)
+                brace = inner_masked.find("{", pe0)
+                mopts = meths.get(mname, {})
+                if semi >= 0 and (brace < 0 or semi < brace):
+                    # required method: `fn f(&self) -> T;`
+                    s0 = attr_start(inner_src, inner_masked, fm.start())
+                    pieces.append(rule_R0(inner_src[pos:s0], log))
+                    decl = rule_R0(inner_src[s0:semi], log)
+                    am = re.search(r"->\s*(.+?)\s*$", decl, re.S)
+                    if am and mopts.get("contract"):
+                        decl = decl[:am.start()] + "-> (%s: %s)\n%s" % (mopts.get("returns", "r"), am.group(1), mopts["contract"].strip("\n"))
+                        log.append("R6 name return value of required trait method %s + contract" % mname)
+                    pieces.append(decl.rstrip().rstrip(",") + ";" if mopts.get("contract") else decl + ";")
+                    functions.append(("%s::%s (trait declaration: its ensures is an obligation of every impl)" % (name, mname), it["file"], False, False))
+                    pos = semi + 1
+                else:
+                    s0, kw, pe, bb, e0 = slice_fn(inner_src, inner_masked, mname)
+                    pieces.append(rule_R0(inner_src[pos:s0], log))
+                    pieces.append(contract_fn(inner_src[s0:e0], mopts, log, "%s::%s" % (name, mname)))
+                    functions.append(("%s::%s" % (name, mname), it["file"], bool(mopts.get("contract")), bool(mopts.get("external_body"))))
+                    pos = e0
+                found.add(mname)
+            pieces.append(rule_R0(inner_src[pos:], log))
+            missing = set(meths) - found
+            if missing:
+                raise AnchorLost("methods %s of trait %s not found" % (sorted(missing), name))
+            new = head + "".join(pieces) + "}"
         elif kind == "method_as_fn":
             # R8: a trait-impl method lifted to a free function of another name; body verbatim
             hm = re.search(it["header"], masked, re.M)
